@@ -15,7 +15,7 @@ PROPS = {
     "C03": dict(runs=[("cdt", 400, 30000), ("split", 150, 8000), ("refine", 60, 2000)], lean_module="Spade.Properties.C03"),
     "C04": dict(runs=[("cdt", 500, 40000), ("bulk", 100, 6000)], lean_module="Spade.Properties.C04"),
     "C05": dict(runs=[("dt", 400, 30000), ("cdt", 250, 15000), ("small", 200, 15000)], lean_module="Spade.Properties.C05"),
-    "C06": dict(runs=[("pred", 40000, 2000000), ("locate", 100, 4000)], lean_module="Spade.Properties.C06"),
+    "C06": dict(runs=[("pred", 40000, 2000000), ("locate", 100, 4000), ("quad", 3000, 60000)], lean_module="Spade.Properties.C06"),
     "C07": dict(runs=[("term", 300, 20000), ("small", 300, 20000), ("dt", 150, 8000), ("cdt", 150, 8000), ("split", 80, 5000), ("refine", 60, 3000)], lean_module="Spade.Properties.C07"),
     "C08": dict(runs=[("pred", 20000, 1000000), ("invalid", 300, 20000)], lean_module="Spade.Properties.C08"),
     "C09": dict(runs=[("locate", 500, 40000), ("cdt", 150, 8000), ("dt", 300, 20000), ("small", 200, 15000)], lean_module="Spade.Properties.C09"),
